@@ -11,6 +11,8 @@ def _unit(maxn):
     rel = "include/parmcb/sptrees.hpp"
     text = X.src(rel)
     body = X.body_after(text, r"void update_parities\(const std::set<Edge> &edges\)\s*", "SPTree::update_parities")
+    body = X.drop_local_const(body, log)
+    body = X.canon(body, [(r"SPSubtree<Graph, WeightMap, bool> (\w+) = stack\.top\(\);", ["r"]), (r"for \(auto (\w+) : r\.root->children\(\)\)", ["c"])], log)
     body = X.rewrite(body, [
         (r"std::stack<SPSubtree<Graph, WeightMap, bool>> stack;", "size_t sp = 0;", 1, "container-api", "std::stack -> arrays SINFO/SROOT + stack pointer"),
         (r"stack\.emplace\(false, _root\);", "SINFO[sp] = 0; SROOT[sp] = vp_root; sp++;", 1, "container-api", "push (false, root)"),
@@ -20,7 +22,7 @@ def _unit(maxn):
         (r"for \(auto c : r\.root->children\(\)\)", "for (size_t ci = 0; ci < NCHILD[r_root]; ci++)", 1, "container-api", "range-for over the children list"),
         (r"bool is_signed = edges\.find\(c->pred\(\)\) != edges\.end\(\);", "size_t c = CHILD[r_root][ci]; bool is_signed = (vp_S >> PRED[c]) & 1UL;", 1, "container-api",
          "witness membership of the child's predecessor edge"),
-        (r"stack\.emplace\(SPSubtree<Graph, WeightMap, bool> \{ static_cast<bool>\(([^{};]*?)\), c \}\);",
+        (r"stack\.emplace\(\s*SPSubtree<Graph, WeightMap, bool> \{\s*static_cast<bool>\(([^{};]*?)\),\s*c \}\);",
          lambda m: "__CPROVER_assert(sp < 2 * MAXN, \"VP_BOUND stack capacity\"); SINFO[sp] = (bool)(%s); SROOT[sp] = c; sp++;" % m.group(1).replace("r.info", "r_info"), 1,
          "container-api", "push (expression, child); r.info -> r_info"),
     ], log)
